@@ -22,7 +22,10 @@ RULE = (
     "dispatcher (memoised, bounded by OPT) for a leaf with makespan == OPT: "
     "found = property holds for this instance (complete decision, since the "
     "filtered tree is a subtree of the full one), tree exhausted without one = "
-    "violation. Non-trivial: the filter removed an operation in at least one "
+    "violation; the same search is run with the default filter of the RL "
+    "environments when that is not the dominated-operations filter itself. A "
+    "template family and four fixed instances whose optimum no non-delay "
+    "schedule attains are mixed in. Non-trivial: the filter removed an operation in at least one "
     "visited state AND the instance has a complete history worse than OPT "
     "(so an optimum can be lost). Labels report how many instances have an "
     "optimum that no non-delay schedule attains."
@@ -68,6 +71,61 @@ def _instances(draw, cap):
     }
 
 
+@st.composite
+def _delay_template(draw):
+    """Family built to contain instances whose optimum no non-delay schedule
+    attains (random generation hits such instances about once in 20 000):
+    two jobs start on the same machine, each followed by a long tail, and a
+    third job occupies a machine one of the tails needs first."""
+    perm = draw(st.permutations([0, 1, 2, 3, 4]))
+    small = st.integers(1, 3)
+    long_ = st.sampled_from([20, 50, 198, 200])
+    mid = st.sampled_from([5, 20, 50])
+    durations = [
+        [draw(small), draw(long_)],
+        [draw(small), draw(small), draw(long_)],
+        [draw(mid)],
+    ]
+    machines = [
+        [[perm[0]], [perm[4]]],
+        [[perm[0]], [perm[2]], [perm[3]]],
+        [[perm[2]]],
+    ]
+    order = draw(st.permutations([0, 1, 2]))
+    return {
+        "durations": [durations[i] for i in order],
+        "machines": [machines[i] for i in order],
+        "name": "I",
+        "meta": {},
+        "ints": True,
+        "family": "delay_template",
+    }
+
+
+NEEDS_DELAY = [
+    ([[2, 200], [1, 1, 198], [50]], [[[0], [4]], [[0], [2], [3]], [[2]]]),
+    ([[1, 50], [1, 2, 3], [50]], [[[0], [1]], [[0], [2], [1]], [[2]]]),
+    ([[1, 1, 200], [1, 2], [3]], [[[2], [1], [0]], [[2], [0]], [[1]]]),
+    ([[200], [3, 50, 200], [1, 200]], [[[0]], [[2], [0], [1]], [[2], [1]]]),
+]
+
+
+def fixed_cases(tier):
+    return [
+        {
+            "inst": {
+                "durations": d,
+                "machines": m,
+                "name": "I",
+                "meta": {},
+                "ints": True,
+                "family": "needs_delay",
+            }
+        }
+        for d, m in NEEDS_DELAY
+    ]
+
+
 def strategy(tier):
     big = tier == "thorough"
     general = gen.instances(
@@ -78,7 +136,7 @@ def strategy(tier):
         max_total=11 if big else 9,
         zero_ok=False,
     )
-    inst = gen.weighted((3, _instances(11 if big else 9)), (1, general))
+    inst = gen.weighted((3, _instances(11 if big else 9)), (1, general), (1, _delay_template()))
     return inst.map(lambda i: {"inst": i})
 
 
@@ -112,19 +170,44 @@ def _nondelay_best(inst, bound):
     return best[0]
 
 
-def check_case(case, ctx):
-    inst = case["inst"]
-    opt = opt_makespan(inst["durations"], inst["machines"])
-    instance = build_instance(inst)
+def default_env_filters(instance):
+    """The ready-operations filters the two RL environments use when the
+    caller does not pass one (the property's anchors name them as users of
+    the dominated-operations filter)."""
+    import inspect
+
+    from job_shop_lib.dispatching import DispatcherObserverConfig
+    from job_shop_lib.dispatching.feature_observers import FeatureObserverType
+    from job_shop_lib.graphs import build_disjunctive_graph
+    from job_shop_lib.reinforcement_learning import (
+        MultiJobShopGraphEnv,
+        SingleJobShopGraphEnv,
+    )
+
+    env = SingleJobShopGraphEnv(
+        build_disjunctive_graph(instance),
+        [DispatcherObserverConfig(FeatureObserverType.IS_READY)],
+    )
+    multi = inspect.signature(MultiJobShopGraphEnv.__init__).parameters[
+        "ready_operations_filter"
+    ].default
+    return [
+        ("SingleJobShopGraphEnv default", env.dispatcher.ready_operations_filter),
+        ("MultiJobShopGraphEnv default", multi),
+    ]
+
+
+def search(ctx, inst, instance, opt, filt, stats):
+    """True iff some history over Dispatcher(instance, filt)
+    .available_operations() reaches makespan == opt."""
     n_jobs = len(inst["durations"])
     tails = [
         [sum(row[p:]) for p in range(len(row) + 1)] for row in inst["durations"]
     ]
     seen = set()
-    stats = {"nodes": 0, "pruned_states": 0, "best": float("inf"), "worst": 0}
 
     def rec(prefix):
-        d = Dispatcher(instance, filter_dominated_operations)
+        d = Dispatcher(instance, filt)
         m = ref(inst)
         for j, x in prefix:
             d.dispatch(instance.jobs[j][m.next[j]], x)
@@ -133,7 +216,6 @@ def check_case(case, ctx):
         if m.complete():
             mk = d.schedule.makespan()
             stats["best"] = min(stats["best"], mk)
-            stats["worst"] = max(stats["worst"], mk)
             return mk == opt
         jf = tuple(m.job_free(j) for j in range(n_jobs))
         key = (tuple(m.next), jf, tuple(m.machine_free(x) for x in range(m.n_machines)))
@@ -162,7 +244,15 @@ def check_case(case, ctx):
                 return True
         return False
 
-    found = rec([])
+    return rec([])
+
+
+def check_case(case, ctx):
+    inst = case["inst"]
+    opt = opt_makespan(inst["durations"], inst["machines"])
+    instance = build_instance(inst)
+    stats = {"nodes": 0, "pruned_states": 0, "best": float("inf")}
+    found = search(ctx, inst, instance, opt, filter_dominated_operations, stats)
     ctx.check(
         stats["best"] >= opt,
         "model-opt-wrong",
@@ -175,6 +265,16 @@ def check_case(case, ctx):
         f"(best filtered leaf {stats['best']}, {stats['nodes']} nodes explored)",
         opt=opt,
     )
+    for name, filt in default_env_filters(instance):
+        if filt is filter_dominated_operations:
+            ctx.count("env_default_is_dominated_filter")
+            continue
+        st2 = {"nodes": 0, "pruned_states": 0, "best": float("inf")}
+        ctx.check(
+            search(ctx, inst, build_instance(inst), opt, filt, st2),
+            "optimum-lost-env-default",
+            f"{name} filter: OPT={opt} not reachable (best leaf {st2['best']})",
+        )
     # is there a history worse than OPT?  (first-ready / last-ready greedy runs)
     worse = False
     for pick in (0, -1):
